@@ -60,12 +60,12 @@ let parse_addr (s : string) : addr =
     A4 (List.map (fun x -> n_of_int (int_of_string x)) (String.split_on_char '.' s))
 
 let listener_of (l : string) : listener =
-  match l with "udp" | "udpmr" -> LUdp | "tcp" | "gnet" | "tls" | "quic" | "tcpunix" | "gnetunix" -> LTcp | _ -> LHttp
+  match l with "udp" | "udpmr" | "udpds" -> LUdp | "tcp" | "gnet" | "tls" | "quic" | "tcpunix" | "gnetunix" -> LTcp | _ -> LHttp
 
 let client_of (l : string) (client : string) : addr =
   match l with
   | "tcpunix" | "gnetunix" -> ANone     (* a UNIX-socket peer has no IP address *)
-  | "udp" | "udpmr" | "tcp" | "gnet" | "tls" | "quic" ->
+  | "udp" | "udpmr" | "udpds" | "tcp" | "gnet" | "tls" | "quic" ->
     (* the socket's peer address: the loopback source the harness client bound ("127.x.y.z"), 127.0.0.1 by default *)
     if String.length client > 4 && String.sub client 0 4 = "127." then parse_addr client
     else A4 [n_of_int 127; n_of_int 0; n_of_int 0; n_of_int 1]
